@@ -102,6 +102,33 @@ bad = {'obs': [e for e in r['obs'] if e != ['app', 'method_context_closed']], 'k
 cfgm = ['INIT Init', 'NEXT Next', 'CONSTANT Clauses = {"ClosedOnce", "ClosedLast", "CreatedOnce", "SrOnce"}', 'CONSTRAINT Report', 'CHECK_DEADLOCK FALSE']
 expect('pipeline: close event removed', 'TracePipelineMon', good, bad, 'ClosedOnce', cfgm)
 
+# ---- C09: TraceFault on a real fault response
+from harness.checks import c09
+fc = [c for c in c09.export_cases(ctx) if c['fam'] == 'soap11' and c['meth'] == 'f' and c['where'] == 'fn' and c['f']['kind'] == 'fault'
+      and c['f']['cls'] == 'fault' and c['f']['code'] == ['Client', 'A'] and c['f']['msg'] == 'plain' and c['f']['detail'] == 'flat'][0]
+fw = c09.World('soap11', 'S3C-selftest-K')
+raiser, box = c09.make_raiser(fc, 'S3C-selftest-K')
+fw.pending[0] = raiser
+fw.where[0] = 'fn'
+st_, hd_, body_, esc_ = fw.call('f')
+fobs = c09.observe('soap11', st_, hd_, body_, esc_, box, 'S3C-selftest-K')
+fcase = json.loads(json.dumps(fc)); fcase['f']['msg'] = 'same'
+fobs = {k: v for k, v in fobs.items() if k != 'parse_error'}
+expect('fault: status line changed', 'TraceFault', {'case': fcase, 'obs': fobs}, {'case': fcase, 'obs': dict(fobs, status=200)}, 'StatusOk')
+expect('fault: code segment lost', 'TraceFault', {'case': fcase, 'obs': fobs}, {'case': fcase, 'obs': dict(fobs, code=['Client'])}, 'SameCode')
+
+# ---- C18: TraceNull on a real direct / wire pair
+from harness.checks import c18
+nc = {'style': 'wrapped', 'ret': 'one', 'modes': ['pos', 'kw'], 'rename': False, 'dflt': False, 'aux': False, 'narrow': False, 'ostr': False}
+nseen = []
+napp = c18.build(nc['style'], 2, nc['ret'], nseen)
+dres, dargs = c18.direct(napp, nc, nseen)
+wres, wargs = c18.wire_xml(napp, nc, nseen)
+nobs = {'dres': dres, 'wres': wres, 'dcalls': len(dargs), 'wcalls': len(wargs), 'daux': [], 'waux': [],
+        'dargs': [(-1 if a is None else a) for a in dargs[0]], 'wargs': [(-1 if a is None else a) for a in wargs[0]]}
+expect('null: wire argument changed', 'TraceNull', {'case': nc, 'obs': nobs}, {'case': nc, 'obs': dict(nobs, wargs=[10, 99])}, 'ArgsWire')
+expect('null: called twice directly', 'TraceNull', {'case': nc, 'obs': nobs}, {'case': nc, 'obs': dict(nobs, dcalls=2)}, 'OnceEach')
+
 import shutil
 shutil.rmtree(ctx.work, ignore_errors=True)
 print('binding self-test: %s' % ('all corruptions rejected' if ok else 'SOMETHING WAS ACCEPTED THAT SHOULD NOT BE'))
